@@ -288,6 +288,16 @@ def _one(rng, target, mon, sigs, hist, metrics):
                 hist["other-frame-solved-first"] = hist.get("other-frame-solved-first", 0) + 1
             solver.build_force_matrix(when=ti, circle_fit_method=fit)
             kw = {} if method is None else {"method": method}
+            if rng.random() < 0.3:
+                # the same assembled system solved first with adimensional velocities (as get_system_velocity_per_frame does
+                # on it): the scale of that call must not survive into the dimensional one
+                CTX["cur"] = None
+                try:
+                    solver.solve_stress(when=ti, b_matrix="velocity", adimensional_velocity=True, allow_negatives=False)
+                except Exception:
+                    pass
+                CTX["cur"] = cur
+                hist["adimensional-solve-first"] = hist.get("adimensional-solve-first", 0) + 1
             solver.solve_stress(when=ti, b_matrix="velocity", allow_negatives=False, **kw)
         except Exception as exc:
             import traceback
